@@ -111,7 +111,8 @@ def run_translator():
 
 
 def make_coq(targets=None):
-    if not os.path.exists(os.path.join(COQDIR, "Makefile")):
+    mk, proj = os.path.join(COQDIR, "Makefile"), os.path.join(COQDIR, "_CoqProject")
+    if not os.path.exists(mk) or os.path.getmtime(mk) < os.path.getmtime(proj):
         sh("coq_makefile -f _CoqProject -o Makefile", cwd=COQDIR, check=True)
     cmd = ["make", "-j%d" % NCPU]
     if targets:
